@@ -218,6 +218,11 @@ def native_replay(bins, harness, vals):
     for prof, b in bins.items():
         rc, o, _ = sh([b, harness, encode_vals(vals)], timeout=300)
         line = [l for l in o.split('\n') if l.startswith('REPLAY ')]
+        if rc in (134, -6):
+            # the process aborted: a second panic while the first one was unwinding (typically the buffer's own
+            # destructor tripping over the broken state) -- a failure inside the code under test, like a panic
+            rc = 3
+            line = ['REPLAY harness=%s outcome=ABORT (panic while unwinding: %s)' % (harness, o.strip().split('\n')[-1][:120])]
         out[prof] = (rc, line[-1] if line else o.strip()[-300:])
     return out
 
